@@ -494,6 +494,8 @@ class Messenger(Connection):
         # Set after SESS_TERM sent
         self._in_term = False
         self._in_term_func = None
+        # Set after SESS_TERM received
+        self._in_term_peer = False
 
         self._tls_attempt = False
         # Assume socket is ready
@@ -746,6 +748,7 @@ class Messenger(Connection):
                     if not self._in_term:
                         self.send_sess_term(pkt.payload.reason, True)
 
+                    self._in_term_peer = self._in_sess
                     self.recv_sess_term(pkt.payload.reason)
 
                 elif msgcls in (messages.Keepalive, messages.RejectMsg):
@@ -1027,6 +1030,7 @@ class Messenger(Connection):
         self._sessinit_this = None
         self._in_sess = False
         self._in_term = False
+        self._in_term_peer = False
 
         if not self._as_passive:
             # Passive side listens first
@@ -1254,7 +1258,7 @@ class ContactHandler(Messenger, dbus.service.Object):
 
     def _check_sess_term(self):
         ''' Perform post-termination logic. '''
-        if self._in_term and self.is_sess_idle():
+        if self._in_term and self._in_term_peer and self.is_sess_idle():
             self._logger.info('Closing in terminating state')
             self.close()
 
